@@ -1,6 +1,7 @@
 package main
 
 import (
+	"go/token"
 	"fmt"
 	"go/ast"
 	"go/types"
@@ -140,10 +141,12 @@ func runC16(p *Program, r *Report) {
 	r.Rule("R16.3", "E2", 300, "no raw statement text (GetSimpleQuery, Parse QueryString, mysql command payload, OnQueryObject.Query, HandleQuery's rawQuery, HandleRawSQLQuery result 0, sqlparser.String of a tree) reaches a logrus formatting argument or field value; result 1 of HandleRawSQLQuery / RedactSQLQuery output is the sanitizer; the operator-configured capture file writer is the only raw sink allowed")
 	r.Rule("R16.4", "E3", 2, "the functions producing the redacted text (HandleRawSQLQuery, RedactSQLQuery) never print a NotParsedStatement (whose Format echoes the raw input): the statement handed to String comes from a parser constructed strict in the same function, or a type test for NotParsedStatement dominates the print on its false edge")
 	r.Rule("R16.5", "E4", 2, "the redaction walk never prunes: a visitor function that Normalize hands to Walk returns kontinue=false only right after delegating the same node to another Walk (mode switch); any other 'false' skips a subtree whose literals then stay in the redacted text")
+	r.Rule("R16.6", "E2", 3, "the parser and the query-capture helpers do not log what they are given: inside sqlparser (which the taint rule R16.3 models as text in / tree out and does not enter) and in acra-censor/common, no logrus call has an operand that derives from a string or []byte parameter of the enclosing function or from a line read back from the capture file; an error built from such text counts as the text")
 	a := newSQLAST(p, r, "R16.1")
 	if a == nil {
 		return
 	}
+	ruleR166(p, r)
 	ruleR161(p, r, a)
 	ruleR162(p, r, a)
 	ruleR163(p, r)
@@ -850,4 +853,254 @@ func ruleR165(p *Program, r *Report) {
 			r.Bad("R16.5", name, "returns", p.Pos(fd.Pos()), "no return statements found in visitor")
 		}
 	}
+}
+
+// ---- R16.6
+func ruleR166(p *Program, r *Report) {
+	n := 0
+	for _, fn := range p.srcFns {
+		pp := strings.TrimPrefix(fnPkgPath(fn), acraMod+"/")
+		if !(pp == "sqlparser" || pp == "acra-censor/common") {
+			continue
+		}
+		for _, b := range fn.Blocks {
+			for _, in := range b.Instrs {
+				site, ok := in.(ssa.CallInstruction)
+				if !ok || !isLogrusSink(calleeOfCommon(site.Common())) {
+					continue
+				}
+				co := calleeOfCommon(site.Common())
+				args := site.Common().Args
+				if !site.Common().IsInvoke() && co.Type().(*types.Signature).Recv() != nil && len(args) > 0 {
+					args = args[1:]
+				}
+				if len(args) == 0 {
+					continue
+				}
+				n++
+				bad := ""
+				for _, a := range args {
+					if why := textOrigin(p, a, pp == "sqlparser", 0, map[ssa.Value]bool{}); why != "" {
+						bad = "operand derives from " + why
+					}
+				}
+				r.Check(bad == "", "R16.6", fnName(fn), "logrus."+co.Name()+"("+operandText(p, in)+")", p.Pos(in.Pos()), "no operand derives from text handed to the function", bad+": statement text (with its literals) is written to the log")
+			}
+		}
+	}
+	if n == 0 {
+		r.Bad("R16.6", "sqlparser", "log call sites", "-", "no log call with operands found in sqlparser / acra-censor/common")
+	}
+}
+
+// textOrigin: where the text in v comes from, when that is text handed to the function: a string/[]byte parameter
+// (only when params is set), or a line read back through bufio. Follows phis, conversions, concatenation, local
+// variables, the formatting/transforming functions of fmt, errors, strings, bytes, strconv, and - up to three levels -
+// results of acra functions (their returned values, with the callee's parameters mapped back to the arguments).
+// Loads of fields of non-local objects and results of other calls are not text handed to the function.
+func textOrigin(p *Program, v ssa.Value, params bool, depth int, seen map[ssa.Value]bool) string {
+	if v == nil || seen[v] || depth > 3 {
+		return ""
+	}
+	seen[v] = true
+	textual := func(t types.Type) bool {
+		if b, ok := t.Underlying().(*types.Basic); ok {
+			return b.Info()&types.IsString != 0
+		}
+		if sl, ok := t.Underlying().(*types.Slice); ok {
+			if b, ok := sl.Elem().Underlying().(*types.Basic); ok {
+				return b.Kind() == types.Byte
+			}
+		}
+		return false
+	}
+	first := func(vs ...ssa.Value) string {
+		for _, x := range vs {
+			if w := textOrigin(p, x, params, depth, seen); w != "" {
+				return w
+			}
+		}
+		return ""
+	}
+	switch x := v.(type) {
+	case *ssa.Parameter:
+		if params && textual(x.Type()) {
+			return "parameter " + x.Name() + " (" + x.Type().String() + ") of " + fnName(x.Parent())
+		}
+	case *ssa.Phi:
+		return first(x.Edges...)
+	case *ssa.Convert:
+		return first(x.X)
+	case *ssa.ChangeType:
+		return first(x.X)
+	case *ssa.ChangeInterface:
+		return first(x.X)
+	case *ssa.MakeInterface:
+		return first(x.X)
+	case *ssa.Slice:
+		return first(x.X)
+	case *ssa.BinOp:
+		return first(x.X, x.Y)
+	case *ssa.Extract:
+		if c, ok := x.Tuple.(*ssa.Call); ok {
+			return callTextOrigin(p, c, x.Index, params, depth, seen)
+		}
+	case *ssa.Call:
+		return callTextOrigin(p, x, 0, params, depth, seen)
+	case *ssa.Alloc:
+		// a local array/variable: whatever is stored into it (varargs of a formatting call)
+		var vals []ssa.Value
+		var scan func(addr ssa.Value, d int)
+		scan = func(addr ssa.Value, d int) {
+			if refs := addr.Referrers(); refs != nil && d < 4 {
+				for _, rf := range *refs {
+					switch y := rf.(type) {
+					case *ssa.Store:
+						if y.Addr == addr {
+							vals = append(vals, y.Val)
+						}
+					case *ssa.IndexAddr:
+						if y.X == addr {
+							scan(y, d+1)
+						}
+					case *ssa.FieldAddr:
+						if y.X == addr {
+							scan(y, d+1)
+						}
+					}
+				}
+			}
+		}
+		scan(x, 0)
+		return first(vals...)
+	case *ssa.UnOp:
+		if x.Op == token.MUL {
+			switch a := x.X.(type) {
+			case *ssa.Alloc:
+				return first(a)
+			case *ssa.IndexAddr:
+				return first(a.X) // an element of a slice of text (a line of a split buffer)
+			}
+		}
+	case *ssa.Index:
+		return first(x.X)
+	}
+	return ""
+}
+
+func callTextOrigin(p *Program, c *ssa.Call, resIdx int, params bool, depth int, seen map[ssa.Value]bool) string {
+	co := calleeOfCommon(c.Common())
+	if co == nil || co.Pkg() == nil {
+		return ""
+	}
+	if (co.Name() == "ReadAll" || co.Name() == "ReadFile") && resIdx == 0 {
+		if pth := co.Pkg().Path(); pth == "io" || pth == "io/ioutil" || pth == "os" || strings.HasSuffix(pth, "/acra-censor/common") {
+			return "content read back from a file by " + co.Name()
+		}
+	}
+	switch co.Pkg().Path() {
+	case "bufio":
+		switch co.Name() {
+		case "Text", "Bytes", "ReadString", "ReadBytes", "ReadLine":
+			if resIdx == 0 {
+				return "a line read by bufio." + co.Name()
+			}
+		}
+		return ""
+	case "fmt", "errors", "strings", "bytes", "strconv":
+		for _, a := range c.Call.Args {
+			if w := textOrigin(p, a, params, depth, seen); w != "" {
+				return w
+			}
+		}
+		return ""
+	}
+	callee := c.Call.StaticCallee()
+	if callee == nil || callee.Blocks == nil || !isAcraPath(fnPkgPath(callee)) {
+		return ""
+	}
+	// what the callee returns at this index, expressed in the callee's own parameters, mapped back to the arguments
+	for _, ret := range returnsOf(callee) {
+		if resIdx >= len(ret.Results) {
+			continue
+		}
+		inner := map[ssa.Value]bool{}
+		var hit *ssa.Parameter
+		var find func(v ssa.Value, d int)
+		find = func(v ssa.Value, d int) {
+			if v == nil || inner[v] || d > 12 || hit != nil {
+				return
+			}
+			inner[v] = true
+			if pr, ok := v.(*ssa.Parameter); ok {
+				hit = pr
+				return
+			}
+			if in, ok := v.(ssa.Instruction); ok {
+				switch y := v.(type) {
+				case *ssa.Call:
+					cc := calleeOfCommon(y.Common())
+					if cc != nil && cc.Pkg() != nil {
+						switch cc.Pkg().Path() {
+						case "fmt", "errors", "strings", "bytes", "strconv":
+							for _, a := range y.Call.Args {
+								find(a, d+1)
+							}
+						}
+					}
+					return
+				case *ssa.UnOp:
+					if y.Op == token.MUL {
+						if _, isAl := y.X.(*ssa.Alloc); !isAl {
+							return // field of a non-local object
+						}
+					}
+				}
+				for _, op := range in.Operands(nil) {
+					if *op != nil {
+						find(*op, d+1)
+					}
+				}
+				if al, ok := v.(*ssa.Alloc); ok {
+					var scan func(addr ssa.Value, dd int)
+					scan = func(addr ssa.Value, dd int) {
+						if refs := addr.Referrers(); refs != nil && dd < 4 {
+							for _, rf := range *refs {
+								switch z := rf.(type) {
+								case *ssa.Store:
+									if z.Addr == addr {
+										find(z.Val, d+1)
+									}
+								case *ssa.IndexAddr:
+									if z.X == addr {
+										scan(z, dd+1)
+									}
+								}
+							}
+						}
+					}
+					scan(al, 0)
+				}
+			}
+		}
+		find(ret.Results[resIdx], 0)
+		if w := textOrigin(p, ret.Results[resIdx], false, depth+1, map[ssa.Value]bool{}); w != "" {
+			return w + " (in " + fnName(callee) + ")"
+		}
+		if hit != nil {
+			idx := paramIndex(callee, hit)
+			if idx >= 0 && idx < len(c.Call.Args) {
+				if w := textOrigin(p, c.Call.Args[idx], params, depth+1, seen); w != "" {
+					return w + " (through " + fnName(callee) + ")"
+				}
+			}
+		}
+	}
+	return ""
+}
+
+func init() {
+	mut("C16", "partially parsed DDL logged with its text again (original defect)", "sqlparser/ast_methods.go", "			log.Printf(\"ignoring error parsing DDL: %v\", tokenizer.LastError)", "			log.Printf(\"ignoring error parsing DDL '%s': %v\", sql, tokenizer.LastError)", "R16.6", "ParseWithDialect")
+	mut("C16", "a damaged capture-file entry is quoted in the error that is logged", "acra-censor/common/logging_logic.go", "			if err = json.Unmarshal(line, &oneQuery); err != nil {\n				return nil, err\n			}", "			if err = json.Unmarshal(line, &oneQuery); err != nil {\n				return nil, &os.PathError{Op: \"malformed entry\", Path: string(line), Err: err}\n			}", "R16.6", "readStoredQueries")
+	mut("C16", "unparsable statement attached to the debug line", "sqlparser/ast_methods.go", "			log.WithError(err).Debugln(\"ignoring error of non parsed sql statement\")", "			log.WithError(err).WithField(\"statement\", sql).Debugln(\"ignoring error of non parsed sql statement\")", "R16.6", "Parse")
 }
